@@ -19,7 +19,6 @@ import "math/big"
 type fact struct {
 	hasRange bool
 	lo, hi   int64
-	grid     int64
 }
 
 var facts = map[*Term]*fact{}
@@ -44,8 +43,8 @@ func linInterval(l *linForm) (lo, hi *big.Int, ok bool) {
 	lo = big.NewInt(int64(l.c))
 	hi = big.NewInt(int64(l.c))
 	for _, a := range l.atoms {
-		f := facts[a.t]
-		if f == nil || !f.hasRange {
+		f := atomFact(a.t)
+		if f == nil {
 			return nil, nil, false
 		}
 		k := big.NewInt(int64(a.k))
@@ -61,6 +60,45 @@ func linInterval(l *linForm) (lo, hi *big.Int, ok bool) {
 		return nil, nil, false
 	}
 	return lo, hi, true
+}
+
+var noFact = &fact{}
+
+// atomFact returns the range fact of an atom: declared, or derived for ite terms (hull of the
+// branches) and zero-extensions of narrower values.
+func atomFact(t *Term) *fact {
+	if f := facts[t]; f != nil {
+		if f == noFact || !f.hasRange {
+			return nil
+		}
+		return f
+	}
+	var out *fact
+	switch t.op {
+	case "ite":
+		alo, ahi, ok1 := linInterval(linOf(t.args[1]))
+		blo, bhi, ok2 := linInterval(linOf(t.args[2]))
+		if ok1 && ok2 && alo.IsInt64() && ahi.IsInt64() && blo.IsInt64() && bhi.IsInt64() {
+			lo, hi := alo.Int64(), ahi.Int64()
+			if blo.Int64() < lo {
+				lo = blo.Int64()
+			}
+			if bhi.Int64() > hi {
+				hi = bhi.Int64()
+			}
+			out = &fact{hasRange: true, lo: lo, hi: hi}
+		}
+	case "zext":
+		if t.width == 64 && t.args[0].width < 63 {
+			out = &fact{hasRange: true, lo: 0, hi: int64(mask(t.args[0].width))}
+		}
+	}
+	if out == nil {
+		facts[t] = noFact
+		return nil
+	}
+	facts[t] = out
+	return out
 }
 
 // rangeCmp decides a < b from range facts when possible (nil = undecided).
@@ -100,36 +138,37 @@ func rangeCmp(op string, a, b *Term) *Term {
 	return nil
 }
 
-// gridRem evaluates (G + R) srem d (see the file comment). Returns nil when not applicable.
+// gridRem evaluates (Σ k_i·a_i + R) sdiv/srem d where d divides every k_i (as integers): with
+// M = Σ (k_i/d)·a_i the quotient is M + floor(R/d) and the remainder R − d·floor(R/d), provided
+// the whole dividend is a non-negative, non-wrapping integer (so that sdiv/srem are the
+// mathematical floor-div/mod). floor(R/d) is an ite chain of constants over the interval of R.
+// This is how a grid time d·m − off(d) plus an offset is split and rounded without a division on
+// m, and it keeps (x/d)·d + x%d recombining to x in the linear normal form.
 func gridRem(op string, a, b *Term) *Term {
-	if op != "bvsrem" || a.width != 64 || !b.isConst {
+	if (op != "bvsrem" && op != "bvsdiv") || a.width != 64 || !b.isConst {
 		return nil
 	}
 	d := int64(b.cval)
-	if d <= 0 {
+	if d <= 1 {
 		return nil
 	}
 	l := linOf(a)
-	var g *fact
-	gi := -1
-	for i, at := range l.atoms {
-		f := facts[at.t]
-		if f != nil && f.grid != 0 && at.k == 1 && f.grid%d == 0 && f.hasRange && f.lo >= 0 {
-			g, gi = f, i
-			break
+	rest := &linForm{n: 64, c: l.c}
+	mpart := &linForm{n: 64}
+	dropped := false
+	for _, at := range l.atoms {
+		k := int64(at.k)
+		f := atomFact(at.t)
+		if f != nil && k%d == 0 {
+			dropped = true
+			mpart.atoms = append(mpart.atoms, linAtom{at.t, uint64(k / d)})
+			continue
 		}
+		rest.atoms = append(rest.atoms, at)
 	}
-	if g == nil {
+	if !dropped {
 		return nil
 	}
-	// a = (G + offG) + R',  R' = rest - offG,  (G + offG) ≡ 0 (mod d), G + offG >= 0
-	rest := &linForm{n: 64, c: l.c - uint64(gridOff(g.grid))}
-	for i, at := range l.atoms {
-		if i != gi {
-			rest.atoms = append(rest.atoms, at)
-		}
-	}
-	// the whole dividend must be a non-negative, non-wrapping integer
 	alo, _, ok := linInterval(l)
 	if !ok || alo.Sign() < 0 {
 		return nil
@@ -146,18 +185,19 @@ func gridRem(op string, a, b *Term) *Term {
 		return nil
 	}
 	rt := fromLin(rest)
-	// result = rest - q*d for the q with q*d <= rest < (q+1)*d
-	var out *Term
-	for q := qhi.Int64(); q >= qlo.Int64(); q-- {
-		v := bvSub(rt, bvConst(64, uint64(q*d)))
-		if out == nil {
-			out = v
+	// q = the floor quotient of rest: q·d <= rest < (q+1)·d
+	var q *Term
+	for c := qhi.Int64(); c >= qlo.Int64(); c-- {
+		if q == nil {
+			q = bvConst(64, uint64(c))
 		} else {
-			// rest < (q+1)*d  -> this q (or lower)
-			out = tIte(bvCmp("bvslt", rt, bvConst(64, uint64((q+1)*d))), v, out)
+			q = tIte(bvCmp("bvslt", rt, bvConst(64, uint64((c+1)*d))), bvConst(64, uint64(c)), q)
 		}
 	}
-	return out
+	if op == "bvsdiv" {
+		return bvAdd(fromLin(mpart), q)
+	}
+	return bvSub(rt, bvMul(q, b))
 }
 
 // rangeDivRem evaluates a sdiv/srem d (d a positive constant) without a division when the
